@@ -2778,3 +2778,112 @@ mod tests {
         assert_eq!(&packets[0].names, &expected_names);
     }
 }
+
+/// Plain-data views of decoded messages, for verification harnesses.
+#[cfg(feature = "verif-hooks")]
+pub mod verif_facade {
+    use super::{
+        DnsAddress, DnsHostInfo, DnsIncoming, DnsNSec, DnsPointer, DnsRecordBox, DnsSrv, DnsTxt,
+    };
+    use crate::InterfaceId;
+    use std::net::IpAddr;
+
+    #[derive(Debug, Clone, PartialEq)]
+    pub enum RDataView {
+        Addr(IpAddr),
+        Ptr(String),
+        Srv {
+            priority: u16,
+            weight: u16,
+            port: u16,
+            host: String,
+        },
+        Txt(Vec<u8>),
+        HInfo {
+            cpu: String,
+            os: String,
+        },
+        NSec {
+            next_domain: String,
+            type_bitmap: Vec<u8>,
+        },
+        Other,
+    }
+
+    #[derive(Debug, Clone, PartialEq)]
+    pub struct RecordView {
+        pub name: String,
+        pub ty: u16,
+        pub class: u16,
+        pub cache_flush: bool,
+        pub ttl: u32,
+        pub rdata: RDataView,
+    }
+
+    #[derive(Debug, Clone, PartialEq)]
+    pub struct MessageView {
+        pub id: u16,
+        pub flags: u16,
+        /// (name, type, class)
+        pub questions: Vec<(String, u16, u16)>,
+        pub answers: Vec<RecordView>,
+        pub authorities: Vec<RecordView>,
+        pub additionals: Vec<RecordView>,
+    }
+
+    fn view(r: &DnsRecordBox) -> RecordView {
+        let any = r.any();
+        let rdata = if let Some(a) = any.downcast_ref::<DnsAddress>() {
+            RDataView::Addr(a.address().to_ip_addr())
+        } else if let Some(p) = any.downcast_ref::<DnsPointer>() {
+            RDataView::Ptr(p.alias().to_string())
+        } else if let Some(s) = any.downcast_ref::<DnsSrv>() {
+            RDataView::Srv {
+                priority: s.priority,
+                weight: s.weight,
+                port: s.port(),
+                host: s.host().to_string(),
+            }
+        } else if let Some(t) = any.downcast_ref::<DnsTxt>() {
+            RDataView::Txt(t.text().to_vec())
+        } else if let Some(h) = any.downcast_ref::<DnsHostInfo>() {
+            RDataView::HInfo {
+                cpu: h.cpu.clone(),
+                os: h.os.clone(),
+            }
+        } else if let Some(n) = any.downcast_ref::<DnsNSec>() {
+            RDataView::NSec {
+                next_domain: n.next_domain.clone(),
+                type_bitmap: n.type_bitmap.clone(),
+            }
+        } else {
+            RDataView::Other
+        };
+        let rec = r.get_record();
+        RecordView {
+            name: rec.get_original_name().to_string(),
+            ty: rec.entry.ty as u16,
+            class: rec.entry.class,
+            cache_flush: rec.entry.cache_flush,
+            ttl: rec.get_ttl(),
+            rdata,
+        }
+    }
+
+    /// Decodes `data` with the crate's decoder.
+    pub fn decode(data: Vec<u8>) -> Result<MessageView, String> {
+        let msg = DnsIncoming::new(data, InterfaceId::default()).map_err(|e| e.to_string())?;
+        Ok(MessageView {
+            id: msg.id,
+            flags: msg.flags,
+            questions: msg
+                .questions
+                .iter()
+                .map(|q| (q.entry.name.clone(), q.entry.ty as u16, q.entry.class))
+                .collect(),
+            answers: msg.answers.iter().map(view).collect(),
+            authorities: msg.authorities.iter().map(view).collect(),
+            additionals: msg.additional.iter().map(view).collect(),
+        })
+    }
+}
